@@ -139,7 +139,8 @@ def cli_runs(ctx, n):
         try:
             tree = os.path.join(root, "w")
             worldgen.materialise(w, tree)
-            before = worldgen.snapshot(tree)
+            follow, _ = runlib.prepare_links(w, os.fsencode(tree))
+            before = worldgen.snapshot(tree, *follow)
             tdir = os.path.join(root, "torrents")
             os.makedirs(tdir)
             paths = []
@@ -155,7 +156,7 @@ def cli_runs(ctx, n):
             if w.resize:
                 args.append("--resize-export-files")
             p = subprocess.run(args, stdout=subprocess.PIPE, stderr=subprocess.PIPE, timeout=120)
-            after = worldgen.snapshot(tree)
+            after = worldgen.snapshot(tree, *follow)
             rr = runlib.RunResult()
             rr.before, rr.after, rr.tree, rr.result = before, after, tree, "ok"
             rr.presented = list(range(len(w.torrents)))
